@@ -112,6 +112,7 @@ void fx_check_structure(fx_t *x, int topo)
     for (size_t k = 0; k < (size_t)n * n; ++k) if (!isfinite((double)x->D->L[k].re) || !isfinite((double)x->D->L[k].im) || !isfinite((double)x->D->U[k].re) || !isfinite((double)x->D->U[k].im))
         {   /* 1/pivot overflows when a column cancels down to a denormal: legitimate only on a matrix that is singular to working precision */
             csc_q F = factored_view(x->M); ld g = 0, mp = 0;
+            if (x->u < 1.0) verdict_skip("non-finite L/U under a pivoting threshold u=%g < 1 (element growth is unbounded)", x->u);
             if (!ref_nonsingular(x->vt, &F, &g, &mp)) verdict_skip("non-finite L/U on a matrix that is singular to working precision (reference: min pivot/amax %.2Le)", mp);
             verdict_fail("oracle:LU_not_finite", "L or U contains a non-finite value (reference elimination: growth %.2Le, min pivot/amax %.2Le)", g, mp); }
 }
